@@ -152,6 +152,9 @@ def step (st : DState) (line : String) : DState × String :=
     let upd (a : Inst) : DState := { st with insts := st.insts.set! id (some a) }
     match op, args, cur with
     | "N", ["-"], _ => (upd createInternal, "ok")
+    | "N", [l], _ =>
+      -- "-<len>": library-managed buffer, the length argument is irrelevant (src/assemblyline.h)
+      if l.startsWith "-" then (upd createInternal, "ok") else (st, "bad-op")
     | "N", [len, fill], _ =>
       let n := len.toNat!
       let f := (unhex (if fill.length == 1 then "0" ++ fill else fill)).headD 0
